@@ -331,7 +331,9 @@ class Runner:
         # harness metadata "lib":"verif": link lib/kani_lib/kani_lib.c instead of Kani's C model library
         env["VERIF_KANI_LIB"] = "verif" if spec.get("lib") == "verif" else "stock"
         env["VERIF_RELAYOUT"] = "1" if spec.get("relayout", True) and os.environ.get("VERIF_RELAYOUT", "1") != "0" else "0"
-        st, out, secs, peak = run_capped(cmd, KANI_CRATE, cap or spec["cap"], self.mem_gb, lf, env=env)
+        # the concrete-playback run makes kani-driver hold CBMC's whole JSON trace in memory (> 12 GB for the
+        # jump-helper harnesses): it gets three times the memory cap
+        st, out, secs, peak = run_capped(cmd, KANI_CRATE, cap or spec["cap"], self.mem_gb * (3 if playback else 1), lf, env=env)
         r = parse_kani(out)
         r.update({"status": st, "wall_s": round(secs, 2), "peak_rss_mb": peak >> 20, "log": lf, "cmd": " ".join(cmd)})
         if playback:
@@ -472,6 +474,7 @@ def check_property(prop, tier, jobs, seed, mem_gb, only=None, write_evidence=Tru
 
     known = load_known()
     violations, known_hits, undecided, mismatches = [], [], [], []
+    unreplayed = False
     bins = None
     traces_validated = 0
     for s in specs:
@@ -516,8 +519,13 @@ def check_property(prop, tier, jobs, seed, mem_gb, only=None, write_evidence=Tru
                     known_hits.append((s, kf, path))
                 else:
                     violations.append((s, t, path, rr))
+            elif tests:
+                mismatches.append((s, tests[0], tests[0]["path"], {}))
             else:
-                mismatches.append((s, tests[0] if tests else None, tests[0]["path"] if tests else "", {}))
+                # the verdict is FAILED but no concrete trace could be extracted (playback run capped or crashed):
+                # neither a confirmed violation nor a model mismatch
+                undecided.append((s, f"FAILED-BUT-UNREPLAYED(playback {r.get('playback_status')}; failed checks: {[fc['desc'] for fc in r['failed_checks']][:3]})"))
+                unreplayed = True
         elif c.startswith("UNDECIDED") or c == "VACUOUS" or c.startswith("ERROR"):
             undecided.append((s, c))
 
@@ -539,7 +547,7 @@ def check_property(prop, tier, jobs, seed, mem_gb, only=None, write_evidence=Tru
     log(f"== {prop}: pass={npass}/{len(specs)} undecided={len(undecided)} known={len(known_hits)} violations={len(violations)} mismatches={len(mismatches)} wall={wall:.0f}s")
     if violations:
         return 1
-    if mismatches:
+    if mismatches or unreplayed:
         return 2
     if npass == 0 and not known_hits:
         return 2
